@@ -7,7 +7,7 @@ import random
 import subprocess
 import time
 
-from lib import (Broken, Scratch, log, run_mc, tlc, parse_tuple_fields, build_harness, write_ndjson, read_ndjson,
+from lib import (library_races, Broken, Scratch, log, run_mc, tlc, parse_tuple_fields, build_harness, write_ndjson, read_ndjson,
                  load_known, match_known, write_evidence, replay_path, VERIF, RE_TUP)
 
 MC = dict(
@@ -126,11 +126,13 @@ def run_driver_race(scr, insts, tag, seed):
                        text=True, env=env, timeout=1800)
     if p.returncode != 0:
         raise Broken("mux driver failed: %s" % p.stdout[-3000:])
-    races = []
+    races, own = [], []
     for f in glob.glob(racelog + "*"):
-        txt = open(f).read()
-        if "DATA RACE" in txt:
-            races.append(txt[:3000])
+        a, b = library_races(open(f).read())
+        races += a
+        own += b
+    if own:
+        print("NOTE %d race report(s) between two accesses of the harness' own bookkeeping ignored" % len(own))
     return read_ndjson(outp), outp, races
 
 
